@@ -12,8 +12,8 @@ import (
 
 func init() {
 	register(&core.Property{
-		ID:    "C01",
-		Title: "Incremental (partial) resync converges to the same config as a full sync",
+		ID:          "C01",
+		Title:       "Incremental (partial) resync converges to the same config as a full sync",
 		Explanation: "Static decision of the completeness of the dependency tracking the partial sync rests on: (1) every read of a watched, mutable cluster resource in the converters is paired with a tracker link of the matching kind that exists even when the read fails — by the `track` argument, or by a Track* call that dominates or post-dominates the read; listed exemptions are operator-level inputs re-read at every converter construction; (2) the cache implementations link before the read and before its error returns; (3) every acquisition of a shared model object (host, backend, tcp service, acme storage) by the Ingress converter links the acquiring Ingress to it on all paths, including the exits that skip a conflicting declaration; (4) every derived kind that is ever tracked is consumed by syncPartial (removed and re-created), and the pure input kinds are exactly the watched kinds; (5) pre-tracking covers added and updated Ingresses; (6) the partial pipeline is ordered pre-track < query < remove < re-sync (sorted by creation) < annotations < endpoints; (7) the full-sync fallback is the OR of the batch flag, the gateway link test and the global-config/default-certificate tests, and clears links and model before any converter runs; (8) the gateway converter does nothing unless full.",
 		NotDecided: []string{
 			"equality of the files produced by a partial and a full pipeline for concrete histories",
@@ -102,17 +102,17 @@ func c01ReadTracked(c *core.Ctx) {
 		"GetDHSecretPath":        {kind: "Secret", byArg: -1},
 	}
 	exempt := map[string]string{
-		"(*converters/ingress.converter).findBackend -> GetService":             "lookup of an existing backend while pre-tracking; the backend's own creation tracked the service",
-		"(*converters/ingress.converter).readDefaultCertificate -> GetTLSSecretPath": "operator-level default certificate: re-read at every converter construction, compared by NeedFullSync (C01.full-fallback)",
-		"(*converters/ingress/annotations.updater).buildGlobalStats -> GetTLSSecretPath": "operator-level (global ConfigMap): evaluated on full sync only; a secret change alone is not picked up — accepted limitation of global config",
-		"(*converters/ingress/annotations.updater).buildGlobalSSL -> GetDHSecretPath":    "operator-level (global ConfigMap): evaluated on full sync only",
-		"(*converters/configmap.tcpSvcConverter).Sync -> GetService":                      "the TCP ConfigMap converter is re-run unconditionally on every sync (converters.Sync)",
-		"(*converters/configmap.tcpSvcConverter).Sync -> GetTLSSecretPath":                "the TCP ConfigMap converter is re-run unconditionally on every sync",
-		"(*converters/configmap.tcpSvcConverter).Sync -> GetCASecretPath":                 "the TCP ConfigMap converter is re-run unconditionally on every sync",
-		"(*converters/ingress.converter).syncBackendEndpointCookies -> GetPod":            "Pod content is not delivered by the watchers (only deletion transitions): stated limitation",
-		"(*converters/ingress.converter).syncBackendEndpointHashes -> GetPod":             "Pod content is not delivered by the watchers: stated limitation",
-		"converters/utils.FindContainerPort -> GetPod":                                     "Pod content is not delivered by the watchers: stated limitation",
-		"(*converters/gateway.converter).checkListenerAllowedNamespace -> GetNamespace":    "Namespaces are not watched; gateway is full-sync only: stated limitation",
+		"(*converters/ingress.converter).findBackend -> GetService":                         "lookup of an existing backend while pre-tracking; the backend's own creation tracked the service",
+		"(*converters/ingress.converter).readDefaultCertificate -> GetTLSSecretPath":        "operator-level default certificate: re-read at every converter construction, compared by NeedFullSync (C01.full-fallback)",
+		"(*converters/ingress/annotations.updater).buildGlobalStats -> GetTLSSecretPath":    "operator-level (global ConfigMap): evaluated on full sync only; a secret change alone is not picked up — accepted limitation of global config",
+		"(*converters/ingress/annotations.updater).buildGlobalSSL -> GetDHSecretPath":       "operator-level (global ConfigMap): evaluated on full sync only",
+		"(*converters/configmap.tcpSvcConverter).Sync -> GetService":                        "the TCP ConfigMap converter is re-run unconditionally on every sync (converters.Sync)",
+		"(*converters/configmap.tcpSvcConverter).Sync -> GetTLSSecretPath":                  "the TCP ConfigMap converter is re-run unconditionally on every sync",
+		"(*converters/configmap.tcpSvcConverter).Sync -> GetCASecretPath":                   "the TCP ConfigMap converter is re-run unconditionally on every sync",
+		"(*converters/ingress.converter).syncBackendEndpointCookies -> GetPod":              "Pod content is not delivered by the watchers (only deletion transitions): stated limitation",
+		"(*converters/ingress.converter).syncBackendEndpointHashes -> GetPod":               "Pod content is not delivered by the watchers: stated limitation",
+		"converters/utils.FindContainerPort -> GetPod":                                      "Pod content is not delivered by the watchers: stated limitation",
+		"(*converters/gateway.converter).checkListenerAllowedNamespace -> GetNamespace":     "Namespaces are not watched; gateway is full-sync only: stated limitation",
 		"(*converters/ingress/annotations.updater).buildBackendBlueGreenBalance -> GetPod":  "Pod labels are read for blue/green; Pod content is not delivered by the watchers (a new pod arrives with its Endpoints event): stated limitation",
 		"(*converters/ingress/annotations.updater).buildBackendBlueGreenSelector -> GetPod": "Pod labels are read for blue/green; Pod content is not delivered by the watchers: stated limitation",
 	}
@@ -763,8 +763,12 @@ func c01FullFallback(c *core.Ctx) {
 		"ingress": has("ingress.Config", "NeedFullSync()"),
 	}
 	m["batch"] = func(k string) bool { return strings.HasSuffix(k, ".NeedFullSync") && strings.Contains(k, "changed") }
-	m["gateway"] = func(k string) bool { return strings.Contains(k, "NewGatewayConverter(") && strings.HasSuffix(k, ".NeedFullSync()") }
-	m["ingress"] = func(k string) bool { return strings.Contains(k, "NewIngressConverter(") && strings.HasSuffix(k, ".NeedFullSync()") && !strings.Contains(k, "NewGatewayConverter(") }
+	m["gateway"] = func(k string) bool {
+		return strings.Contains(k, "NewGatewayConverter(") && strings.HasSuffix(k, ".NeedFullSync()")
+	}
+	m["ingress"] = func(k string) bool {
+		return strings.Contains(k, "NewIngressConverter(") && strings.HasSuffix(k, ".NeedFullSync()") && !strings.Contains(k, "NewGatewayConverter(")
+	}
 	if t.Err != "" {
 		c.Undecided("converters.Sync full-sync condition", c.Pos(fn.Pos()), t.Err)
 	} else {
